@@ -641,6 +641,25 @@ func (ts *TermStore) miDivFloor(a *Term, k int64) *Term {
 		q := new(big.Int).Div(m, big.NewInt(k)) // Euclidean == floor for positive divisor
 		return ts.miCanon(ts.intern(&Term{op: OpConst, sort: SDy, name: q.String(), bnd: math.Abs(float64(q.Int64()))}))
 	}
+	// (k*X + c) div k = X + (c div k) when every coefficient is a multiple of k
+	if a.op == OpDyLin {
+		l := ts.linOf(a)
+		bk := big.NewInt(k)
+		all := true
+		for _, c := range l.coefs {
+			if new(big.Int).Mod(c, bk).Sign() != 0 {
+				all = false
+				break
+			}
+		}
+		if all {
+			q := lin{k: new(big.Int).Div(l.k, bk), atoms: l.atoms, coefs: make([]*big.Int, len(l.coefs))}
+			for i, c := range l.coefs {
+				q.coefs[i] = new(big.Int).Quo(c, bk)
+			}
+			return ts.miCanon(ts.mkLin(q, 0, a.bnd/float64(k)+1))
+		}
+	}
 	return ts.intern(&Term{op: OpDyDiv, sort: SDy, args: []*Term{a}, name: fmt.Sprint(k), bnd: a.bnd/float64(k) + 1})
 }
 func (ts *TermStore) miMod(a *Term, k int64) *Term {
@@ -652,6 +671,21 @@ func (ts *TermStore) miMod(a *Term, k int64) *Term {
 		m := dyConstBig(a)
 		q := new(big.Int).Mod(m, big.NewInt(k))
 		return ts.miCanon(ts.intern(&Term{op: OpConst, sort: SDy, name: q.String(), bnd: float64(q.Int64())}))
+	}
+	if a.op == OpDyLin {
+		l := ts.linOf(a)
+		bk := big.NewInt(k)
+		all := true
+		for _, c := range l.coefs {
+			if new(big.Int).Mod(c, bk).Sign() != 0 {
+				all = false
+				break
+			}
+		}
+		if all {
+			r := new(big.Int).Mod(l.k, bk)
+			return ts.BV(64, uint64(r.Int64()))
+		}
 	}
 	return ts.intern(&Term{op: OpDyMod, sort: SDy, args: []*Term{a}, name: fmt.Sprint(k), bnd: float64(k)})
 }
@@ -1363,7 +1397,11 @@ func (e *evalCtx) eval1(t *Term) evalVal {
 		for _, app := range e.ufs[t.name] {
 			same := true
 			for i := range args {
-				if args[i].u != app.args[i].u {
+				if args[i].bi != nil || app.args[i].bi != nil {
+					if args[i].bi == nil || app.args[i].bi == nil || args[i].bi.Cmp(app.args[i].bi) != 0 {
+						same = false
+					}
+				} else if args[i].u != app.args[i].u {
 					same = false
 				}
 			}
